@@ -289,6 +289,9 @@ pub fn run(env: &Env, tier: &str, seed: u64, out: &mut Outcome) {
         for (i, s) in specs.iter_mut().enumerate() {
             s.name = format!("En{}x{:04}", round, i);
             s.rust_name = if i % 4 == 0 { String::new() } else { "En".to_string() };
+            if i % 5 == 2 {
+                gen::plainify(s);
+            }
         }
         let mut handles = Vec::new();
         // configuration A is compiled in both profiles (cfg(debug_assertions) must not matter)
@@ -361,7 +364,9 @@ pub fn run(env: &Env, tier: &str, seed: u64, out: &mut Outcome) {
                 .collect();
             let accepted = crate::inproc::accepted_by_macros(env, "C19", &suspects);
             for (name, ok) in &accepted {
-                if !*ok {
+                // (a plain program - documented constructs, ordinary spelling - stays a violation)
+                let plain = specs.iter().find(|s| &s.name == name).map(|s| vmodel::plain::is_plain(s)).unwrap_or(false);
+                if !*ok && !plain {
                     failing.remove(name);
                     out.removed.push((name.clone(), "rejected by the derive itself".into()));
                 }
